@@ -570,6 +570,20 @@ C03_Monotone    == [][now' >= now]_vars
 C03_NoOvershoot == pc \notin {"idle", "construct", "csteps", "cemit"} => now <= endT
 C03_ReturnExact == (pc = "idle" /\ calls > 0) => now = endT
 \* every advance makes progress or ends the call
+\* the inductive invariant that Clock.tla proves for unbounded integer times (Apalache),
+\* on the loop-head states of this specification: ties the abstraction to the
+\* specification the implementation is bound to
+C03_ClockIndInv ==
+  (pc = "loop" /\ Dev = {}) =>
+    /\ now <= endT
+    /\ \A p \in (DOMAIN front \cap live) \ fresh :
+         /\ front[p].pend \in {"none", "upd"}
+         /\ front[p].pend = "upd" => (now < front[p].time /\ front[p].time <= endT)
+         /\ (front[p].pend = "none" /\ front[p].dts = 0) => front[p].time = now
+         /\ front[p].pend = "none" => front[p].time <= now
+         /\ front[p].dts >= 0
+         /\ front[p].dts # 0 => (front[p].pend = "none" /\ front[p].time + front[p].dts > now)
+
 C03_Progress ==
   [][pc = "advance" => (now' > now \/ (now' = endT /\ ~force'))]_vars
 C03_Terminates == (pc = "loop") ~> (pc = "idle")
